@@ -127,9 +127,9 @@ def classify(case, ir, mr):
 
 CLAIM = {
     'text': 'Coq theorems (Properties_C11.v), all closed under the global context: for every capacity, every well-formed pair '
-            'of objects and every argument inside the documented domain, (1) each of the 40 modelled modifying entry points '
+            'of objects and every argument inside the documented domain, (1) each of the 41 modelled modifying entry points '
             '(constructors, assign, insert / erase / push_back / pop_back / append / sprintf / replace families incl. iterator '
-            'overloads, swap, clear) leaves exactly the text std::string has after the same operation, cut at L '
+            'overloads, swap, clear; a sprintf whose conversion fails is specified as "assign the empty string") leaves exactly the text std::string has after the same operation, cut at L '
             '(C11_mutators_refine); (2) each of the 49 observing entry points - the 9 compare overloads, starts_with / ends_with '
             '/ contains (4 overloads each), substr, copy, at/front/back/length/empty/str, == and !=, the traversal in both '
             'directions, single iterator steps ++ / -- / += / -= with operator*, and all 30 overloads of find, rfind, '
